@@ -42,6 +42,16 @@ def cases(rng, tier):
             if rng.random() < 0.2:
                 qs.append(rng.choice("pva") + fhex(t))       # repeat
         yield ("traj h %s %s" % (b, ",".join(qs)), "long")
+    # blocks longer than 64 KiB: histories that jump between the head and the tail (beyond byte offset 65536)
+    for i in range(8 if thorough else 2):
+        tr = G.rand_traj(rng, nseg=rng.choice([2, 3, 5]))
+        st = tr["start"]
+        pre = G.long_prefix(rng, st[0], st[1], st[2], deg=3, flat_z=False, dur=20)
+        t0 = sum(s["dur"] for s in pre) / 1000.0
+        cand = [G.f32(t0 + t) for t in G.probe_times(rng, tr, 30)] + [G.f32(t0 * f) for f in (0.1, 0.5, 0.9, 1.0)] + [0.0]
+        tr["segs"] = pre + tr["segs"]
+        qs = [rng.choice("pppvvad") + fhex(rng.choice(cand)) for _ in range(30)]
+        yield ("traj h %s %s" % (hexs(G.encode(tr)), ",".join(qs)), "long-block")
     # yaw player histories
     from . import yawgen as Y
     for i in range(3000 if thorough else 300):
